@@ -97,6 +97,9 @@ class DelayedDestructor {
                     }
                 }
                 if (!epointers.empty()) {
+                    // copy the callback before anything is removed: if the
+                    // copy throws, the objects are still owned by the list
+                    auto deleteFunc = callBeforeDeleteFunction;
                     // so apparently remove_if can actually call the
                     // destructor for shared_ptrs so the call function needs
                     // to be before this call
@@ -115,7 +118,6 @@ class DelayedDestructor {
                     ElementsToBeDestroyed.erase(loc,
                                                 ElementsToBeDestroyed.end());
                     elementSize = ElementsToBeDestroyed.size();
-                    auto deleteFunc = callBeforeDeleteFunction;
                     lock.unlock();
                     // this needs to be done after the lock, so a destructor
                     // can never called while under the lock
@@ -262,6 +264,9 @@ class DelayedDestructorSingleThread {
                     }
                 }
                 if (!epointers.empty()) {
+                    // copy the callback before anything is removed: if the
+                    // copy throws, the objects are still owned by the list
+                    auto deleteFunc = callBeforeDeleteFunction;
                     // so apparently remove_if can actually call the
                     // destructor for shared_ptrs so the call function needs
                     // to be before this call
@@ -280,7 +285,6 @@ class DelayedDestructorSingleThread {
                     ElementsToBeDestroyed.erase(loc,
                                                 ElementsToBeDestroyed.end());
                     elementSize = ElementsToBeDestroyed.size();
-                    auto deleteFunc = callBeforeDeleteFunction;
 
                     // this needs to be done after the lock, so a destructor
                     // can never called while under the lock
